@@ -418,6 +418,7 @@ class IndicatorInterp(Interp):
                 st.site("read", node, name=nm, pos=at - (ln.f - ONE), how="candles_sum", guarded=False, window=(at, ln.f))
                 st.site("read", node, name=nm, pos=at, how="candles_sum", guarded=False, top=True)
                 st.site("loop", node, count=ln.f, what="candles_sum")
+                st.site("candles-sum-at", node, at=at, name=nm)  # the helper returns None at absolute index 0 (`if not index_: return`)
                 return Num(mk_sum(var, ln.f, mk_rd(nm, at - Frac.atom(var))))
         if from_base and meth == "read_candle":
             b = self.bind(m.node, node, st)
